@@ -941,10 +941,14 @@ class Parser:
                 return self._c_div(left, right)
             elif exprnode.op == '%':
                 return left - self._c_div(left, right) * right
-            elif exprnode.op == '<<':
-                return left << right
-            elif exprnode.op == '>>':
-                return left >> right
+            elif exprnode.op in ('<<', '>>'):
+                if right < 0:
+                    raise CDefError("negative shift count in a constant "
+                                    "expression")
+                if exprnode.op == '<<':
+                    return left << right
+                else:
+                    return left >> right
             elif exprnode.op == '&':
                 return left & right
             elif exprnode.op == '|':
